@@ -116,7 +116,7 @@ def make_pipe(perm, onechunk=False):
     return pipe
 
 
-def make_lost(j):
+def make_lost(j, close_first=False):
     def lost(t0: bytes, v: bytes) -> bool:
         import pymodbus.factory as F
         from pymodbus.exceptions import ConnectionException
@@ -132,6 +132,8 @@ def make_lost(j):
         order = [2, 0, 1]
         for i in order[:j]:
             p.dataReceived(_reply(tids[i], 1, v[2 * i:2 * i + 2]))
+        if close_first:
+            p.close()           # the application closes the client itself; Twisted then reports the loss
         p.connectionLost("test")
         for n, i in enumerate(order):
             r = recs[i]
@@ -289,6 +291,9 @@ def obligations(tier):
             continue
         out.append(Obl("lost.tcp.at%d" % j, make_lost(j), timeout=T,
                        bounds="three requests from a symbolic tid counter, %d replies delivered, then connection lost, then one more request" % j))
+    for j in (1,) if tier == "quick" else (0, 1, 2):
+        out.append(Obl("lost.tcp.closed.at%d" % j, make_lost(j, close_first=True), timeout=T,
+                       bounds="as lost.tcp.at%d, but the application calls protocol.close() before the connection loss is reported" % j))
     out.append(Obl("step.tcp", step_tcp, timeout=T, findings=("KF-async-tid-wrap-overwrites-pending",),
                    bounds="arbitrary pre-state: two pending deferreds with symbolic distinct ids, symbolic counter; one new request, then connection loss"))
     for j in (0, 1, 2):
